@@ -10,6 +10,7 @@ TB_COMMON = [
 PROPS = {}
 NOT_YET = {}
 HOOK_COMMITS = []
+import cow2lean
 
 PROPS["C16"] = {
     "module": "GstProofs.Props.C16",
@@ -291,20 +292,24 @@ PROPS["C05"] = {
 
 PROPS["C10"] = {
     "module": "GstProofs.Props.C10",
+    "translators": [cow2lean.cow2lean],
     "theorems": [
         "GstProofs.C10.detach_spec", "GstProofs.C10.step_refines", "GstProofs.C10.cow_refines",
         "GstProofs.C10.stale_reference_leaks", "GstProofs.C10.step_coherent", "GstProofs.C10.memo_fresh",
         "GstProofs.C10.memo_buggy_differs", "GstProofs.C10.seed_nonpositive_keeps", "GstProofs.C13.det",
+        "GstProofs.C10.vectorT_writers_detach", "GstProofs.C10.vectorT_const_members_read_only",
+        "GstProofs.C10.vectorT_escapes_known", "GstProofs.C10.vectorNumT_mutators_use_accessors",
+        "GstProofs.C10.vectorT_table_covers_model",
     ],
     "harnesses": ["vh_c10"],
     "level": "proof",
-    "technique": "Lean 4 refinement proofs: (a) the copy-on-write vector (VectorT: shared buffers, detach before every mutator) refines plain value semantics for every operation sequence on any number of handles (invariant + commuting abstraction, induction over the history); (b) a lazily evaluated calculator with per-input cache invalidation answers, after any history of updates and queries, as a fresh object with the final inputs (coherence invariant); (c) the random stream after a positive seed depends on the seed only. Correspondence: random operation sequences on real VectorInt handles compared with the model; every scenario of the library run in a fresh child process and in a child that first executes a random prelude of other successful / failing calls; incremental vs fresh objects; copies vs sources",
+    "technique": "Lean 4 refinement proofs + a translator: the table of the member functions of VectorT / VectorNumT (writes the shared buffer? detaches first? const member handing out mutable access?) is regenerated from the headers at every run and the premises of the refinement are decided on it (every writer detaches before its first access, const members only read, the only escapes are the two of known finding F73); (a) the copy-on-write vector (VectorT: shared buffers, detach before every mutator) refines plain value semantics for every operation sequence on any number of handles (invariant + commuting abstraction, induction over the history); (b) a lazily evaluated calculator with per-input cache invalidation answers, after any history of updates and queries, as a fresh object with the final inputs (coherence invariant); (c) the random stream after a positive seed depends on the seed only. Correspondence: random operation sequences on real VectorInt handles compared with the model; every scenario of the library run in a fresh child process and in a child that first executes a random prelude of other successful / failing calls; incremental vs fresh objects; copies vs sources",
     "level_text": "Partial proof: value semantics of the copy-on-write vector, history-independence of a cache-invalidating calculator and seed-determinism are theorems (all histories); that the real objects behave like these models is checked by correspondence: VectorInt against the model (operation sequences), KrigingCalcul / NeighMoving / Model setters as instances of the memo pattern (incremental vs fresh), and 8 library scenarios (kriging, cross-validation, simulations, variogram, optimised covariance matrices, random laws) fresh vs after a random prelude in separate processes.",
     "level_note": "Trusted: Lean kernel + 3 standard axioms; static/global state of the library is not enumerated by a translator: it is probed through the prelude runs only; documented global options (default space, file prefix) are restored by the prelude. Known finding F73: writable references taken before a copy.",
-    "rule": "1500 (quick) / 20000 (thorough) operation sequences of length 2-14 on up to 14 handles (new, copy, assign, set, push_back, resize, swap); 40 / 400 worlds x 8 scenarios fresh vs after 2-6 prelude calls drawn among 10 kinds (2 of them failing); per world: incremental KrigingCalcul over 4 targets, re-used moving neighbourhood forwards and backwards, model edited after use, Model and Db copies. distinct = distinct request line",
+    "rule": "1500 (quick) / 20000 (thorough) operation sequences of length 2-14 on up to 14 handles (new, copy, assign, set through operator[] / setAt / at / iterator, push_back, resize, swap, clear, fill, insert, remove, push_front, front / back, operator<<); 40 / 400 worlds x 8 scenarios fresh vs after 2-6 prelude calls drawn among 10 kinds (2 of them failing); per world: incremental KrigingCalcul over 4 targets, re-used moving neighbourhood forwards and backwards, model edited after use, Model and Db copies. distinct = distinct request line",
     "trivial": lambda line: False,
     "trusted_base": TB_COMMON + ["fork-based isolation of the fresh / after-prelude runs"],
-    "uncovered": ["global state not reached by the prelude kinds", "multi-threaded use (OpenMP paths run with one thread)", "objects other than Db / Model / KrigingCalcul / NeighMoving for copy and incremental checks"],
+    "uncovered": ["the translator reads the headers syntactically (comment stripping, brace matching, regular expressions): a write to the buffer through an alias it does not recognise would be missed by the table and seen only by the correspondence run", "global state not reached by the prelude kinds", "multi-threaded use (OpenMP paths run with one thread)", "objects other than Db / Model / KrigingCalcul / NeighMoving for copy and incremental checks"],
     "assumptions": [],
 }
 
